@@ -1,297 +1,15 @@
 /-
   Pfb.C15.Props — property theorems for C15
   ("`py` delivers arguments faithfully and never evaluates literals").
+
+  The model (`Pfb.C15.Model`) follows `_parse_auto_apply_args`, `UserExpr`,
+  `_interpret_arg_mode` and the global-option loop of lib/python/pyflyby/_py.py;
+  its last section holds the vocabulary the statements below are written in.
+  All helper lemmas are in `Pfb.C15.Lemmas`.
 -/
 import Pfb.C15.Lemmas
 namespace Pfb.C15
 open Pfb
-
-/-! ## 1. The binding loops implement Python's call binding -/
-
-/-- The reasons for which the binding phase may reject, each tied to the
-    condition of the call that makes Python's own binder reject it. -/
-def Reason (spec : ArgSpec) (pos : List Expr) (kw : Dict) (e : PErr) : Prop :=
-  e = .evalError ∨
-  (e = .bothPosKw ∧ ∃ a ∈ spec.args.take pos.length, dhas kw a = true) ∨
-  (e = .missingRequired ∧ ∃ a ∈ spec.args.drop pos.length, dhas kw a = false ∧ posDefault spec a = false) ∨
-  (e = .missingRequiredKw ∧ ∃ a ∈ spec.kwonly, dhas kw a = false ∧ spec.kwdefaults.contains a = false) ∨
-  (e = .tooManyPos ∧ pos.length > spec.args.length ∧ spec.varargs = false)
-
-/-- the keys of `kw` that the resolution step lets through: parameter names, or anything when `**kw` exists -/
-def KeysOk (spec : ArgSpec) (kw : Dict) : Prop := spec.varkw = true ∨ ∀ p ∈ kw, p.1 ∈ spec.names
-
-theorem bindPhase_of_pyBind_ok (env : Env) (spec : ArgSpec) (hwf : WF spec) (pos : List Expr) (kw : Dict)
-    (b : Binding Expr) (h : pyBind spec Expr.dflt pos kw = .ok b) :
-    bindPhase env spec pos kw = evalBinding env spec b := by
-  unfold pyBind at h
-  simp only [] at h
-  split at h
-  · simp at h
-  rename_i c1
-  split at h
-  · simp at h
-  rename_i c2
-  split at h
-  · simp at h
-  rename_i c3
-  split at h
-  · simp at h
-  rename_i c4
-  split at h
-  · simp at h
-  simp only [Except.ok.injEq] at h
-  subst h
-  -- the conditions in usable form
-  have c2' : ∀ a ∈ spec.args.take pos.length, dhas kw a = false := by
-    intro a ha
-    cases hd : dhas kw a with
-    | false => rfl
-    | true => exact absurd (List.any_eq_true.2 ⟨a, ha, hd⟩) c2
-  have c3' : ∀ a ∈ spec.args.drop pos.length, dhas kw a = true ∨ hasDefault spec a = true := by
-    intro a ha
-    rw [hasDefault_arg hwf (List.mem_of_mem_drop ha)]
-    cases hd : dhas kw a with
-    | true => left; rfl
-    | false =>
-      right
-      cases hp : posDefault spec a with
-      | true => rfl
-      | false => exact absurd (List.any_eq_true.2 ⟨a, ha, by simp [hd, hp]⟩) c3
-  have c4' : ∀ a ∈ spec.kwonly, dhas kw a = true ∨ spec.kwdefaults.contains a = true := by
-    intro a ha
-    cases hd : dhas kw a with
-    | true => left; rfl
-    | false =>
-      right
-      cases hp : spec.kwdefaults.contains a with
-      | true => rfl
-      | false => exact absurd (List.any_eq_true.2 ⟨a, ha, by rw [hd, hp]; rfl⟩) c4
-  -- keyword-only parameters are untouched by the first loop
-  have hnotin : ∀ a ∈ spec.kwonly, (spec.args.drop pos.length).contains a = false := by
-    intro a ha
-    cases hc : (spec.args.drop pos.length).contains a with
-    | false => rfl
-    | true => exact (hwf.disjoint (List.mem_of_mem_drop (by simpa using hc)) ha).elim
-  have hdget1 : ∀ a ∈ spec.kwonly,
-      dget (kw.filter (fun p => !(spec.args.drop pos.length).contains p.1)) a = dget kw a := by
-    intro a ha
-    rw [dget_filter_keys kw (fun k => !(spec.args.drop pos.length).contains k) a]
-    simp only [hnotin a ha, Bool.not_false, if_true]
-  have c4'' : ∀ a ∈ spec.kwonly,
-      dhas (kw.filter (fun p => !(spec.args.drop pos.length).contains p.1)) a = true ∨ hasDefault spec a = true := by
-    intro a ha
-    rw [hasDefault_kwonly hwf ha]
-    unfold dhas
-    rw [hdget1 a ha]
-    exact c4' a ha
-  have hkwexprs : argExprs (kw.filter (fun p => !(spec.args.drop pos.length).contains p.1)) spec.kwonly
-      = spec.kwonly.map (fun a => (dget kw a).getD (.dflt a)) := by
-    unfold argExprs
-    apply List.map_congr_left
-    intro a ha
-    rw [hdget1 a ha]
-  have hss : (kw.filter (fun p => !(spec.args.drop pos.length).contains p.1)).filter
-        (fun p => !spec.kwonly.contains p.1) = kw.filter (fun p => !spec.names.contains p.1) := by
-    rw [List.filter_filter]
-    apply List.filter_congr
-    intro p hp
-    have hnt : p.1 ∉ spec.args.take pos.length := by
-      intro hin
-      have := c2' p.1 hin
-      rw [dhas_false_iff] at this
-      exact this p hp rfl
-    have hsplit : p.1 ∈ spec.args ↔ p.1 ∈ spec.args.drop pos.length := by
-      constructor
-      · intro hin
-        rw [← List.take_append_drop pos.length spec.args] at hin
-        rcases List.mem_append.1 hin with h1 | h1
-        · exact absurd h1 hnt
-        · exact h1
-      · exact List.mem_of_mem_drop
-    unfold ArgSpec.names
-    by_cases h1 : p.1 ∈ spec.args
-    · simp [h1, hsplit.1 h1]
-    · have : p.1 ∉ spec.args.drop pos.length := fun hh => h1 (hsplit.2 hh)
-      simp [h1, this]
-  unfold bindPhase evalBinding
-  rw [bindArgs_spec env spec spec.args pos kw hwf.args_nodup c2' c3']
-  unfold argExprs
-  cases hA : evalAll env (pos.take spec.args.length ++
-      (spec.args.drop pos.length).map fun a => (dget kw a).getD (.dflt a)) with
-  | error e => rfl
-  | ok vs =>
-    simp only []
-    rw [bindKwonly_spec env spec spec.kwonly _ hwf.kwonly_nodup c4'', hkwexprs]
-    cases hK : evalAll env (spec.kwonly.map fun a => (dget kw a).getD (.dflt a)) with
-    | error e => rfl
-    | ok ks =>
-      simp only [hss]
-      have hextra : (if (pos.drop spec.args.length).isEmpty then (Except.ok [] : Except PErr (List Val))
-            else if spec.varargs then evalAll env (pos.drop spec.args.length) else .error .tooManyPos)
-          = evalAll env (pos.drop spec.args.length) := by
-        cases hl : pos.drop spec.args.length with
-        | nil => simp [evalAll]
-        | cons x xs =>
-          have hlen : pos.length > spec.args.length := by
-            have : (pos.drop spec.args.length).length > 0 := by rw [hl]; simp
-            simp at this; omega
-          have hv : spec.varargs = true := by
-            cases hv : spec.varargs with
-            | true => rfl
-            | false => exact absurd (by simp [hlen, hv]) c1
-          simp [hv]
-      rw [hextra]
-
-theorem bindPhase_sound (env : Env) (spec : ArgSpec) (hwf : WF spec) (pos : List Expr) (kw : Dict)
-    (hk : KeysOk spec kw) :
-    (∀ r, bindPhase env spec pos kw = .ok r → ∃ b, pyBind spec Expr.dflt pos kw = .ok b) ∧
-    (∀ e, bindPhase env spec pos kw = .error e → Reason spec pos kw e) := by
-  cases h1 : bindArgs env spec spec.args pos kw with
-  | error x =>
-    constructor
-    · intro r hr; simp [bindPhase, h1] at hr
-    · intro e he
-      simp only [bindPhase, h1] at he
-      simp only [Except.error.injEq] at he
-      subst he
-      rcases bindArgs_err env spec spec.args pos kw x hwf.args_nodup h1 with h | ⟨h, a, ha, hd⟩ | ⟨h, a, ha, hd, hdef⟩
-      · left; exact h
-      · right; left; exact ⟨h, a, ha, hd⟩
-      · right; right; left
-        refine ⟨h, a, ha, hd, ?_⟩
-        rwa [hasDefault_arg hwf (List.mem_of_mem_drop ha)] at hdef
-  | ok r1 =>
-    obtain ⟨c2', c3'⟩ := bindArgs_ok env spec spec.args pos kw r1 h1
-    have hspec := bindArgs_spec env spec spec.args pos kw hwf.args_nodup c2' c3'
-    rw [h1] at hspec
-    cases hA : evalAll env (pos.take spec.args.length ++ argExprs kw (spec.args.drop pos.length)) with
-    | error x => rw [hA] at hspec; simp at hspec
-    | ok vs =>
-      rw [hA] at hspec
-      simp only [Except.ok.injEq] at hspec
-      subst hspec
-      -- facts about the dictionary handed to the second loop
-      have hdget1 : ∀ a ∈ spec.kwonly,
-          dget (kw.filter (fun p => !(spec.args.drop pos.length).contains p.1)) a = dget kw a := by
-        intro a ha
-        have hn : (spec.args.drop pos.length).contains a = false := by
-          cases hc : (spec.args.drop pos.length).contains a with
-          | false => rfl
-          | true => exact (hwf.disjoint (List.mem_of_mem_drop (by simpa using hc)) ha).elim
-        rw [dget_filter_keys kw (fun k => !(spec.args.drop pos.length).contains k) a]
-        simp only [hn, Bool.not_false, if_true]
-      have hdhas1 : ∀ a ∈ spec.kwonly,
-          dhas (kw.filter (fun p => !(spec.args.drop pos.length).contains p.1)) a = dhas kw a := by
-        intro a ha; unfold dhas; rw [hdget1 a ha]
-      -- the pyBind conditions that the first loop established
-      have hc2 : (spec.args.take pos.length).any (fun a => dhas kw a) = false := by
-        cases hh : (spec.args.take pos.length).any (fun a => dhas kw a) with
-        | false => rfl
-        | true =>
-          obtain ⟨a, ha, hd⟩ := List.any_eq_true.1 hh
-          rw [c2' a ha] at hd; simp at hd
-      have hc3 : (spec.args.drop pos.length).any (fun a => !dhas kw a && !posDefault spec a) = false := by
-        cases hh : (spec.args.drop pos.length).any (fun a => !dhas kw a && !posDefault spec a) with
-        | false => rfl
-        | true =>
-          obtain ⟨a, ha, hd⟩ := List.any_eq_true.1 hh
-          have := c3' a ha
-          rw [hasDefault_arg hwf (List.mem_of_mem_drop ha)] at this
-          rcases this with h | h <;> simp [h] at hd
-      have hc5 : (!spec.varkw && kw.any (fun p => !spec.names.contains p.1)) = false := by
-        rcases hk with h | h
-        · simp [h]
-        · cases hh : kw.any (fun p => !spec.names.contains p.1) with
-          | false => simp
-          | true =>
-            obtain ⟨p, hp, hd⟩ := List.any_eq_true.1 hh
-            have := h p hp
-            simp [this] at hd
-      cases h2 : bindKwonly env spec spec.kwonly
-          (kw.filter (fun p => !(spec.args.drop pos.length).contains p.1)) with
-      | error x =>
-        constructor
-        · intro r hr; simp only [bindPhase, h1, h2] at hr; cases hr
-        · intro e he
-          simp only [bindPhase, h1, h2] at he
-          simp only [Except.error.injEq] at he
-          subst he
-          rcases bindKwonly_err env spec spec.kwonly _ x hwf.kwonly_nodup h2 with h | ⟨h, a, ha, hd, hdef⟩
-          · left; exact h
-          · right; right; right; left
-            refine ⟨h, a, ha, ?_, ?_⟩
-            · rwa [hdhas1 a ha] at hd
-            · rwa [hasDefault_kwonly hwf ha] at hdef
-      | ok r2 =>
-        have c4' := bindKwonly_ok env spec spec.kwonly _ r2 h2
-        have hc4 : spec.kwonly.any (fun a => !dhas kw a && !spec.kwdefaults.contains a) = false := by
-          cases hh : spec.kwonly.any (fun a => !dhas kw a && !spec.kwdefaults.contains a) with
-          | false => rfl
-          | true =>
-            obtain ⟨a, ha, hd⟩ := List.any_eq_true.1 hh
-            have := c4' a ha
-            rw [hdhas1 a ha, hasDefault_kwonly hwf ha] at this
-            rcases this with h | h
-            · rw [h] at hd; simp at hd
-            · rw [h] at hd; simp at hd
-        obtain ⟨kvs, kw2⟩ := r2
-        by_cases hl : (pos.drop spec.args.length).isEmpty = true
-        · -- no extra positional arguments
-          have hc1 : (decide (pos.length > spec.args.length) && !spec.varargs) = false := by
-            have : pos.length ≤ spec.args.length := by
-              have := List.isEmpty_iff.1 hl
-              have h3 := congrArg List.length this
-              simp at h3; omega
-            simp; intro h; omega
-          constructor
-          · intro r _
-            unfold pyBind
-            simp only [hc1, hc2, hc3, hc4, hc5]
-            exact ⟨_, rfl⟩
-          · intro e he
-            simp only [bindPhase, h1, h2, hl, if_true] at he
-            cases hR : evalKw env kw2 with
-            | error x => rw [hR] at he; simp at he; subst he; left; exact evalKw_error _ _ _ hR
-            | ok rest => rw [hR] at he; simp at he
-        · by_cases hv : spec.varargs = true
-          · have hc1 : (decide (pos.length > spec.args.length) && !spec.varargs) = false := by simp [hv]
-            constructor
-            · intro r _
-              unfold pyBind
-              simp only [hc1, hc2, hc3, hc4, hc5]
-              exact ⟨_, rfl⟩
-            · intro e he
-              simp only [bindPhase, h1, h2, hl, hv, if_true] at he
-              cases hS : evalAll env (pos.drop spec.args.length) with
-              | error x =>
-                rw [hS] at he; simp at he; subst he; left; exact evalAll_error _ _ _ hS
-              | ok xs =>
-                rw [hS] at he
-                cases hR : evalKw env kw2 with
-                | error x => rw [hR] at he; simp at he; subst he; left; exact evalKw_error _ _ _ hR
-                | ok rest => rw [hR] at he; simp at he
-          · have hl' : (pos.drop spec.args.length).isEmpty = false := by
-              cases hh : (pos.drop spec.args.length).isEmpty with
-              | false => rfl
-              | true => exact absurd hh hl
-            have hv' : spec.varargs = false := by
-              cases hh : spec.varargs with
-              | false => rfl
-              | true => exact absurd hh hv
-            constructor
-            · intro r hr
-              simp only [bindPhase, h1, h2, hl', hv', Bool.false_eq_true, if_false] at hr
-              cases hr
-            · intro e he
-              simp only [bindPhase, h1, h2, hl', hv', Bool.false_eq_true, if_false] at he
-              simp only [Except.error.injEq] at he
-              subst he
-              right; right; right; right
-              refine ⟨rfl, ?_, by simpa using hv⟩
-              have : pos.drop spec.args.length ≠ [] := by
-                intro h; exact hl (by simp [h])
-              have h3 : (pos.drop spec.args.length).length > 0 := List.length_pos_iff.2 this
-              simp at h3; omega
 
 /-- **C15_bind_agrees.**  On a signature as `inspect` describes it and a keyword
     dictionary as the option loop builds it, the three hand-written binding
@@ -304,7 +22,7 @@ theorem C15_bind_agrees (env : Env) (spec : ArgSpec) (hwf : WF spec) (pos : List
     (hk : KeysOk spec kw) :
     match pyBind spec Expr.dflt pos kw with
     | .ok b => bindPhase env spec pos kw = evalBinding env spec b
-    | .error _ => ∃ e, bindPhase env spec pos kw = .error e ∧ Reason spec pos kw e := by
+    | .error _ => ∃ e, bindPhase env spec pos kw = .error e ∧ Reason env spec pos kw e := by
   cases hb : pyBind spec Expr.dflt pos kw with
   | ok b => exact bindPhase_of_pyBind_ok env spec hwf pos kw b hb
   | error x =>
@@ -315,114 +33,337 @@ theorem C15_bind_agrees (env : Env) (spec : ArgSpec) (hwf : WF spec) (pos : List
       rw [hb] at hb'; cases hb'
     | error e => exact ⟨e, rfl, hs.2 e hp⟩
 
-/-! ## 2. The option loop -/
+/-- **C15_auto** (stated for every mode).  Whatever `_parse_auto_apply_args`
+    delivers — positionally or by keyword — is, for some original argument
+    string `s` (an element of argv, the exact text after the first `=` of an
+    element, or what stdin held), either the string `s` itself or the value of
+    evaluating that same `s`; the latter never in string mode, never for a
+    blank string, only when the evaluator produced a value, and in auto mode
+    only when `s` parses as an expression.  The only other delivered values
+    are the defaults of the function's own parameters. -/
+theorem C15_auto (env : Env) (spec : ArgSpec) (hwf : WF spec) (argv : List Str) (stdin : Str) (mode : Mode)
+    (a : List Val) (k : List (Str × Val)) (h : parseAutoApply env spec argv stdin mode = .ok (a, k)) :
+    ∀ v ∈ a ++ k.map (·.2),
+      (∃ s, FromArgv argv stdin s ∧
+        (v = .raw s ∨ (v = .evaluated s ∧ mode ≠ .string ∧ blank s = false ∧ env.outcome s = .value ∧
+                       (mode = .auto → env.parsable s = true)))) ∨
+      (∃ n ∈ spec.names, v = .dflt n) := by
+  obtain ⟨p, occ, hs, hb⟩ := parse_ok h
+  have hk := scan_keysOk env spec mode argv stdin p occ hs
+  obtain ⟨e1, e2⟩ := scan_exprs env spec mode argv stdin none p occ hs
+  intro v hv
+  rcases delivered_sources env spec hwf p (dictOf occ) hk a k hb v hv with ⟨e, hsrc, hev⟩ | hd
+  · left
+    have hfrom : ExprFrom argv stdin mode e := by
+      rcases hsrc with hp | ⟨key, hkey⟩
+      · exact e1 e hp
+      · exact e2 (key, e) (dictOf_mem occ _ hkey)
+    obtain ⟨s, m, rfl, hs', hm⟩ := hfrom
+    refine ⟨s, hs', ?_⟩
+    rcases evalExpr_user env s m v hev with h1 | ⟨h1, h2, h3, h4, h5⟩
+    · left; exact h1
+    · right
+      have hmm : m = mode := by
+        rcases hm with hm | hm
+        · exact hm
+        · exact absurd hm h2
+      subst hmm
+      exact ⟨h1, h2, h3, h4, h5⟩
+  · right; exact hd
 
-theorem resolveOpt_bound (env : Env) (spec : ArgSpec) (n : Str) (eq : Bool) (m : Str)
-    (h : resolveOpt env spec n eq = .bound m) : m ∈ spec.names ∨ spec.varkw = true := by
-  unfold resolveOpt at h
+/-- **C15_string_exact.**  In string mode (`--safe`, `--args=string`) every
+    delivered value is exactly an original argument string (or a parameter's
+    own default): nothing is evaluated, nothing is altered. -/
+theorem C15_string_exact (env : Env) (spec : ArgSpec) (hwf : WF spec) (argv : List Str) (stdin : Str)
+    (a : List Val) (k : List (Str × Val)) (h : parseAutoApply env spec argv stdin .string = .ok (a, k)) :
+    ∀ v ∈ a ++ k.map (·.2), (∃ s, FromArgv argv stdin s ∧ v = .raw s) ∨ (∃ n ∈ spec.names, v = .dflt n) := by
+  intro v hv
+  rcases C15_auto env spec hwf argv stdin .string a k h v hv with ⟨s, hs, h1 | ⟨_, h2, _⟩⟩ | hd
+  · left; exact ⟨s, hs, h1⟩
+  · exact absurd rfl h2
+  · right; exact hd
+
+/-- **C15_string_noeval.**  In string mode the outcome of
+    `_parse_auto_apply_args` — what is delivered, or which error — does not
+    depend on the evaluator at all (neither on what parses as an expression nor
+    on what `auto_eval` would do): literals are never evaluated. -/
+theorem C15_string_noeval (e1 e2 : Env) (hs : SameSyntax e1 e2) (spec : ArgSpec) (argv : List Str) (stdin : Str) :
+    parseAutoApply e1 spec argv stdin .string = parseAutoApply e2 spec argv stdin .string := by
+  unfold parseAutoApply
+  rw [← scan_env_indep e1 e2 hs spec .string argv stdin none]
+  cases h : scan e1 spec .string argv stdin none with
+  | error x => rfl
+  | ok r =>
+    obtain ⟨p, occ⟩ := r
+    obtain ⟨i1, i2⟩ := scan_exprs e1 spec .string argv stdin none p occ h
+    have lit : ∀ e, ExprFrom argv stdin .string e → evalExpr e1 e = evalExpr e2 e := by
+      intro e he
+      obtain ⟨s, m, rfl, _, hm⟩ := he
+      have : m = .string := by rcases hm with h | h <;> exact h
+      subst this
+      simp [evalExpr]
+    exact bindPhase_congr e1 e2 spec p (dictOf occ) (fun e he => lit e (i1 e he))
+      (fun q hq => lit q.2 (i2 q (dictOf_mem occ q hq)))
+
+/-- **C15_after_dashdash.**  In every mode, whenever the command line is
+    accepted, the arguments that follow the first `--` reach the function as the
+    exact original strings — unevaluated, in order, contiguous — among the
+    positional arguments. -/
+theorem C15_after_dashdash (env : Env) (spec : ArgSpec) (hwf : WF spec) (pre rest : List Str) (stdin : Str)
+    (mode : Mode) (hpre : dd ∉ pre) (a : List Val) (k : List (Str × Val))
+    (h : parseAutoApply env spec (pre ++ dd :: rest) stdin mode = .ok (a, k)) :
+    ∃ front tail, a = front ++ rest.map Val.raw ++ tail := by
+  obtain ⟨p, occ, hs, hb⟩ := parse_ok h
+  have hk := scan_keysOk env spec mode _ stdin p occ hs
+  obtain ⟨p0, rfl⟩ := scan_dashdash env spec mode rest pre stdin none p occ hpre hs
+  obtain ⟨vs, tail, hv, rfl⟩ := delivered_positional env spec hwf _ _ hk a k hb
+  obtain ⟨v1, v2, _, e2, rfl⟩ := evalAll_append_ok hv
+  rw [evalAll_lits] at e2
+  simp only [Except.ok.injEq] at e2
+  subst e2
+  exact ⟨v1, tail, rfl⟩
+
+/-- **C15_binding_partial** — what holds of the code as it stands (any
+    `env.exactFirst`).  For a command line typed in the documented forms in
+    which no option names a parameter that is a proper prefix of another
+    (`Agrees`, D16): if the equivalent Python call `f(*pos, **kw)` binds, the
+    parser succeeds and delivers exactly that binding (each option bound to
+    the parameter with its name or unique prefix, the last occurrence
+    winning, every chosen string evaluated on its own); if Python would raise
+    `TypeError`, the parser rejects — with a reason that is present — and never
+    delivers a binding. -/
+theorem C15_binding_partial (env : Env) (spec : ArgSpec) (hwf : WF spec) (mode : Mode)
+    (items : List Item) (tail : Option (List Str)) (stdin : Str)
+    (hok : ∀ it ∈ items, ItemOk env spec it)
+    (hag : ∀ f t v, Item.opt f t v ∈ items → Agrees env spec (dashToUnderscore t)) :
+    match pyBind spec Expr.dflt (callPos spec mode items tail stdin) (callKw spec mode items stdin) with
+    | .ok b => parseAutoApply env spec (render items tail) stdin mode = evalBinding env spec b
+    | .error _ => ∃ e, parseAutoApply env spec (render items tail) stdin mode = .error e ∧
+        Reason env spec (callPos spec mode items tail stdin) (callKw spec mode items stdin) e := by
+  have hs := scan_render env spec hwf mode tail items stdin hok hag
+  have hk := scan_keysOk env spec mode _ stdin _ _ hs
+  have := C15_bind_agrees env spec hwf (callPos spec mode items tail stdin) (callKw spec mode items stdin) hk
+  unfold parseAutoApply
+  rw [hs]
+  exact this
+
+/-- **C15_binding** — the full statement (the target): no restriction on
+    parameter names.  It holds of the code with `fixes/C15-D16.diff`
+    (`env.exactFirst = true`); for the unchanged code it is false
+    (`C15_D16_witness`). -/
+theorem C15_binding (env : Env) (hx : env.exactFirst = true) (spec : ArgSpec) (hwf : WF spec) (mode : Mode)
+    (items : List Item) (tail : Option (List Str)) (stdin : Str)
+    (hok : ∀ it ∈ items, ItemOk env spec it) :
+    match pyBind spec Expr.dflt (callPos spec mode items tail stdin) (callKw spec mode items stdin) with
+    | .ok b => parseAutoApply env spec (render items tail) stdin mode = evalBinding env spec b
+    | .error _ => ∃ e, parseAutoApply env spec (render items tail) stdin mode = .error e ∧
+        Reason env spec (callPos spec mode items tail stdin) (callKw spec mode items stdin) e :=
+  C15_binding_partial env spec hwf mode items tail stdin hok (fun _ _ _ _ => Or.inl hx)
+
+/-- **C15_accepts_only_bindable.**  For *any* argv (not only the documented
+    forms): the parser succeeds only if the call it read — positional
+    expressions, keyword dictionary — binds under Python's semantics, and then
+    it delivers exactly that binding.  It never invents a binding. -/
+theorem C15_accepts_only_bindable (env : Env) (spec : ArgSpec) (hwf : WF spec) (argv : List Str) (stdin : Str) (mode : Mode)
+    (a : List Val) (k : List (Str × Val)) (h : parseAutoApply env spec argv stdin mode = .ok (a, k)) :
+    ∃ b, pyBind spec Expr.dflt (callPosOf env spec mode argv stdin) (callKwOf env spec mode argv stdin) = .ok b ∧
+      evalBinding env spec b = .ok (a, k) := by
+  obtain ⟨p, occ, hs, hb⟩ := parse_ok h
+  have hk := scan_keysOk env spec mode argv stdin p occ hs
+  obtain ⟨b, h1, h2⟩ := bindPhase_ok_binding env spec hwf p (dictOf occ) hk _ hb
+  refine ⟨b, ?_, h2⟩
+  simp [callPosOf, callKwOf, hs, h1]
+
+/-- **C15_rejects_ambiguous.**  After any well-formed beginning, an option whose
+    name is not a parameter name and is a prefix of two or more parameters is
+    rejected as ambiguous — never guessed, never bound — whatever follows. -/
+theorem C15_rejects_ambiguous (env : Env) (spec : ArgSpec) (hwf : WF spec) (mode : Mode)
+    (its1 : List Item) (f : Form) (t v : Str) (its2 : List Item) (tail : Option (List Str)) (stdin : Str)
+    (hok : ∀ it ∈ its1, ItemOk env spec it)
+    (hag : ∀ f t v, Item.opt f t v ∈ its1 → Agrees env spec (dashToUnderscore t))
+    (hsyn : OptSyntax env f t) (hnot : dashToUnderscore t ∉ spec.names) (m1 m2 : Str) (r : List Str)
+    (hamb : spec.names.filter (fun a => (dashToUnderscore t).isPrefixOf a) = m1 :: m2 :: r) :
+    parseAutoApply env spec (render (its1 ++ .opt f t v :: its2) tail) stdin mode = .error .ambiguous := by
+  obtain ⟨c, t', rfl, _, _⟩ := hsyn.first
+  have hn : dashToUnderscore (c :: t') ≠ [] := by simp [dashToUnderscore]
+  have hres := resolveOpt_ambiguous env spec _ f.hasEq hn hnot m1 m2 r hamb
+  unfold parseAutoApply
+  rw [render_split, scan_bad_option env spec hwf mode its1 f _ v _ stdin _ hok hag hsyn hres]
+
+/-- **C15_rejects_unknown.**  An option that names no parameter and is a prefix
+    of none is rejected as unknown when the function has no `**kwargs` (a bare
+    `--help`/`--h`/`--source` is the help request instead). -/
+theorem C15_rejects_unknown (env : Env) (spec : ArgSpec) (hwf : WF spec) (mode : Mode)
+    (its1 : List Item) (f : Form) (t v : Str) (its2 : List Item) (tail : Option (List Str)) (stdin : Str)
+    (hok : ∀ it ∈ its1, ItemOk env spec it)
+    (hag : ∀ f t v, Item.opt f t v ∈ its1 → Agrees env spec (dashToUnderscore t))
+    (hsyn : OptSyntax env f t)
+    (hnone : spec.names.filter (fun a => (dashToUnderscore t).isPrefixOf a) = []) (hv : spec.varkw = false)
+    (hnh : ¬ (f.hasEq = false ∧
+      (dashToUnderscore t = sHelp ∨ dashToUnderscore t = sH ∨ dashToUnderscore t = sSource))) :
+    parseAutoApply env spec (render (its1 ++ .opt f t v :: its2) tail) stdin mode = .error .unknownOption := by
+  obtain ⟨c, t', rfl, _, _⟩ := hsyn.first
+  have hn : dashToUnderscore (c :: t') ≠ [] := by simp [dashToUnderscore]
+  have hres := resolveOpt_unknown env spec _ f.hasEq hn hnone hv hnh
+  unfold parseAutoApply
+  rw [render_split, scan_bad_option env spec hwf mode its1 f _ v _ stdin _ hok hag hsyn hres]
+
+/-- **C15_rejects_call.**  In string mode (no evaluation can fail) a command
+    line in the documented forms whose equivalent Python call does not bind —
+    a required parameter missing, a parameter given both positionally and by
+    name, too many positional arguments — is rejected with the matching error
+    and the condition named by that error really holds. -/
+theorem C15_rejects_call (env : Env) (spec : ArgSpec) (hwf : WF spec)
+    (items : List Item) (tail : Option (List Str)) (stdin : Str)
+    (hok : ∀ it ∈ items, ItemOk env spec it)
+    (hag : ∀ f t v, Item.opt f t v ∈ items → Agrees env spec (dashToUnderscore t))
+    (x : BindErr)
+    (hb : pyBind spec Expr.dflt (callPos spec .string items tail stdin) (callKw spec .string items stdin) = .error x) :
+    ∃ e, parseAutoApply env spec (render items tail) stdin .string = .error e ∧ e ≠ .evalError ∧
+      Reason env spec (callPos spec .string items tail stdin) (callKw spec .string items stdin) e := by
+  have h := C15_binding_partial env spec hwf .string items tail stdin hok hag
+  rw [hb] at h
+  obtain ⟨e, he, hr⟩ := h
+  refine ⟨e, he, ?_, hr⟩
+  -- no evaluation can fail in string mode: every expression is a literal
+  intro hee
+  subst hee
+  rcases hr with ⟨_, e, hsrc, y, hy⟩ | ⟨h, _⟩ | ⟨h, _⟩ | ⟨h, _⟩ | ⟨h, _⟩
+  · have hs := scan_render env spec hwf .string tail items stdin hok hag
+    obtain ⟨i1, i2⟩ := scan_exprs env spec .string _ stdin none _ _ hs
+    have hfrom : ExprFrom (render items tail) stdin .string e := by
+      rcases hsrc with hp | ⟨k, hk⟩
+      · exact i1 e hp
+      · exact i2 (k, e) (dictOf_mem _ _ hk)
+    obtain ⟨s, m, rfl, _, hm⟩ := hfrom
+    have : m = .string := by rcases hm with h | h <;> exact h
+    subst this
+    simp [evalExpr] at hy
+  all_goals cases h
+
+section Witness
+
+/-- ASCII identifiers, every string evaluable; `fix` = with `fixes/C15-D16.diff` -/
+def envW (fix : Bool) : Env := ⟨asciiIdent, fun _ => true, fun _ => .value, fix⟩
+
+/-- `def h(x, xy)` -/
+def specW : ArgSpec := ⟨[['x'], ['x','y']], 0, false, [], [], false⟩
+
+/-- `--x=1 --xy=2` -/
+def itemsW : List Item := [.opt .ddEq ['x'] ['1'], .opt .ddEq ['x','y'] ['2']]
+
+theorem specW_wf : WF specW := by decide
+
+theorem itemsW_ok (fix : Bool) : ∀ it ∈ itemsW, ItemOk (envW fix) specW it := by
+  intro it hit
+  simp only [itemsW, List.mem_cons, List.mem_nil_iff, or_false] at hit
+  rcases hit with rfl | rfl
+  · exact ⟨['x'], ⟨⟨'x', [], rfl, by decide, by decide⟩, by decide, by cases fix <;> decide, by decide, by decide,
+      by decide⟩⟩
+  · exact ⟨['x','y'], ⟨⟨'x', ['y'], rfl, by decide, by decide⟩, by decide, by cases fix <;> decide, by decide,
+      by decide, by decide⟩⟩
+
+/-- the equivalent Python call `h(x='1', xy='2')` binds … -/
+theorem witness_call_binds :
+    pyBind specW Expr.dflt (callPos specW .string itemsW none []) (callKw specW .string itemsW []) =
+      .ok ⟨[.user ['1'] .string, .user ['2'] .string], [], [], []⟩ := by decide
+
+/-- … the unchanged parser rejects `--x=1 --xy=2` as ambiguous … -/
+theorem witness_rejected :
+    parseAutoApply (envW false) specW (render itemsW none) [] .string = .error .ambiguous := by decide
+
+/-- … and with the proposed fix it delivers `h('1', '2')`. -/
+theorem witness_fixed :
+    parseAutoApply (envW true) specW (render itemsW none) [] .string = .ok ([.raw ['1'], .raw ['2']], []) := by decide
+
+/-- **C15_D16_witness.**  The statement of `C15_binding` without the hypothesis
+    `env.exactFirst = true` (i.e. for the code as it stands) is false:
+    `def h(x, xy)` with `--x=1 --xy=2`. -/
+theorem C15_D16_witness :
+    ¬ (∀ (env : Env) (spec : ArgSpec), WF spec → ∀ (mode : Mode) (items : List Item) (tail : Option (List Str))
+        (stdin : Str), (∀ it ∈ items, ItemOk env spec it) →
+        match pyBind spec Expr.dflt (callPos spec mode items tail stdin) (callKw spec mode items stdin) with
+        | .ok b => parseAutoApply env spec (render items tail) stdin mode = evalBinding env spec b
+        | .error _ => ∃ e, parseAutoApply env spec (render items tail) stdin mode = .error e ∧
+            Reason env spec (callPos spec mode items tail stdin) (callKw spec mode items stdin) e) := by
+  intro H
+  have h := H (envW false) specW specW_wf .string itemsW none [] (itemsW_ok false)
+  rw [witness_call_binds] at h
   simp only [] at h
-  split at h
-  · rename_i m' hms
-    simp only [Res.bound.injEq] at h
-    subst h
-    left
-    split at hms
-    · rename_i hc
-      simp only [List.cons.injEq, and_true] at hms
-      subst hms
-      simp only [Bool.and_eq_true] at hc
-      have : n ∈ matched spec n := by simpa using hc.2
-      exact (List.mem_filter.1 this).1
-    · have : m' ∈ matched spec n := by rw [hms]; simp
-      exact (List.mem_filter.1 this).1
-  · split at h
-    · cases h
-    · split at h
-      · cases h
-      · split at h
-        · rename_i hv; right; exact hv
-        · cases h
-  · cases h
+  rw [witness_rejected] at h
+  revert h
+  decide
 
-theorem optName_bound (env : Env) (spec : ArgSpec) (n : Str) (eq : Bool) (m : Str)
-    (h : optName env spec n eq = .ok m) : m ∈ spec.names ∨ spec.varkw = true := by
-  unfold optName at h
-  split at h
-  · cases h
-  · split at h
-    · cases h
-    · cases h
-    · cases h
-    · rename_i m' hres
-      simp only [Except.ok.injEq] at h; subst h
-      exact resolveOpt_bound env spec _ _ _ hres
+end Witness
 
-theorem addPos_ok {e : Expr} {r : Except PErr Scanned} {p occ} (h : addPos e r = .ok (p, occ)) :
-    ∃ p', r = .ok (p', occ) ∧ p = e :: p' := by
-  cases r with
-  | error x => cases h
-  | ok r =>
-    obtain ⟨p', k'⟩ := r
-    simp only [addPos, Except.ok.injEq, Prod.mk.injEq] at h
-    exact ⟨p', by rw [h.2], h.1.symm⟩
+/-- **C15_last_wins.**  In the equivalent call every parameter receives the
+    value of the *last* option that names it (by its name or unique prefix). -/
+theorem C15_last_wins (spec : ArgSpec) (mode : Mode) (items : List Item) (stdin : Str) (m : Str) :
+    dget (callKw spec mode items stdin) m = lastOcc (expectScan spec mode items stdin).2 m :=
+  dget_dictOf _ _
 
-theorem addKw_ok {m : Str} {e : Expr} {r : Except PErr Scanned} {p occ} (h : addKw m e r = .ok (p, occ)) :
-    ∃ k', r = .ok (p, k') ∧ occ = (m, e) :: k' := by
-  cases r with
-  | error x => cases h
-  | ok r =>
-    obtain ⟨p', k'⟩ := r
-    simp only [addKw, Except.ok.injEq, Prod.mk.injEq] at h
-    exact ⟨k', by rw [h.1], h.2.symm⟩
+/-- **C15_global_opts_suffix.**  Global option parsing (`--safe`, `--args=…`,
+    `-q`, …) hands the command and its arguments on untouched: what remains is
+    a suffix of the original argv. -/
+theorem C15_global_opts_suffix (argv : List Str) (m : Option AMode) (o : GOut) (h : globalOpts argv m = .ok o) :
+    ∃ pre, argv = pre ++ o.rest :=
+  globalOpts_suffix_aux argv.length argv m o (Nat.le_refl _) h
 
-theorem scan_keys (env : Env) (spec : ArgSpec) (mode : Mode) :
-    ∀ (argv : List Str) (stdin : Str) (pending : Option Str) p occ,
-      (∀ nm, pending = some nm → nm ∈ spec.names ∨ spec.varkw = true) →
-      scan env spec mode argv stdin pending = .ok (p, occ) →
-      ∀ q ∈ occ, q.1 ∈ spec.names ∨ spec.varkw = true := by
-  intro argv
-  induction argv with
-  | nil =>
-    intro stdin pending p occ _ h
-    cases pending with
-    | some nm => simp [scan] at h
-    | none => simp [scan] at h; simp [h.2]
-  | cons arg rest ih =>
-    intro stdin pending p occ hp h
-    cases pending with
-    | some nm =>
-      simp only [scan] at h
-      split at h
-      · cases h
-      · obtain ⟨k', hr, rfl⟩ := addKw_ok h
-        intro q hq
-        simp at hq
-        rcases hq with rfl | hq
-        · exact hp nm rfl
-        · exact ih stdin none p k' (by simp) hr q hq
-    | none =>
-      simp only [scan] at h
-      split at h
-      · cases h
-      · cases h
-      · obtain ⟨p', hr, _⟩ := addPos_ok h
-        exact ih [] none p' occ (by simp) hr
-      · simp only [Except.ok.injEq, Prod.mk.injEq] at h
-        simp [← h.2]
-      · rename_i n eq v _
-        split at h
-        · cases h
-        · rename_i m hm
-          have hm' := optName_bound env spec n eq m hm
-          split at h
-          · exact ih stdin (some m) p occ (by intro nm hnm; cases hnm; exact hm') h
-          · obtain ⟨k', hr, rfl⟩ := addKw_ok h
-            intro q hq
-            simp at hq
-            rcases hq with rfl | hq
-            · exact hm'
-            · exact ih stdin none p k' (by simp) hr q hq
-      · obtain ⟨p', hr, _⟩ := addPos_ok h
-        exact ih stdin none p' occ (by simp) hr
+/-- `--safe` puts the parser in string mode whatever came before (a later
+    `--args=…` may still override it: the last mode option wins). -/
+theorem C15_safe_sets_string (rest : List Str) (m : Option AMode) :
+    globalOpts (w "--safe" :: rest) m = globalOpts rest (some .string) := by
+  have : gstep (w "--safe") = .cont (fun _ => some .string) := by rfl
+  simp [globalOpts, this]
+
+section Examples
+
+/-- `def g(foo, *rest, bar=…, key, **kw)` -/
+def specE : ArgSpec := ⟨[w "foo"], 0, true, [w "bar", w "key"], [w "bar"], true⟩
+/-- `1+2 -b 'x y' - --k=v --zz=$HOME -- --key -x` (prefixes `b`, `k`; `zz` goes to `**kw`) -/
+def itemsE : List Item :=
+  [.pos (w "1+2"), .opt .dSp (w "b") (w "x y"), .stdin, .opt .ddEq (w "k") (w "v"), .opt .ddEq (w "zz") (w "$HOME")]
+def tailE : Option (List Str) := some [w "--key", w "-x"]
+
+example : WF specE := by decide
+
+example : ∀ it ∈ itemsE, ItemOk (envW false) specE it := by
+  intro it hit
+  simp only [itemsE, List.mem_cons, List.mem_nil_iff, or_false] at hit
+  rcases hit with rfl | rfl | rfl | rfl | rfl
+  · exact ⟨by decide, by decide, by decide⟩
+  · exact ⟨w "bar", ⟨⟨'b', [], rfl, by decide, by decide⟩, by decide, by decide, by decide, by decide, by decide⟩⟩
+  · trivial
+  · exact ⟨w "key", ⟨⟨'k', [], rfl, by decide, by decide⟩, by decide, by decide, by decide, by decide, by decide⟩⟩
+  · exact ⟨w "zz", ⟨⟨'z', ['z'], rfl, by decide, by decide⟩, by decide, by decide, by decide, by decide, by decide⟩⟩
+
+/-- the unchanged code agrees with the property on this signature: no name is a proper prefix of another -/
+example : ∀ f t v, Item.opt f t v ∈ itemsE → Agrees (envW false) specE (dashToUnderscore t) := by
+  intro f t v hit
+  simp only [itemsE, List.mem_cons, List.mem_nil_iff, or_false] at hit
+  rcases hit with h | h | h | h | h <;> cases h <;> (right; decide)
+
+/-- … and the model delivers `g(eval '1+2', <stdin>, '--key', '-x', bar=eval 'x y', key=eval 'v', zz=eval '$HOME')` -/
+example : parseAutoApply (envW false) specE (render itemsE tailE) (w "IN") .auto =
+    .ok ([.evaluated (w "1+2"), .raw (w "IN"), .raw (w "--key"), .raw (w "-x")],
+         [(w "bar", .evaluated (w "x y")), (w "key", .evaluated (w "v")), (w "zz", .evaluated (w "$HOME"))]) := by
+  decide
+
+/-- hypotheses of `C15_after_dashdash` -/
+example : dd ∉ [w "1+2", w "-b", w "x y"] := by decide
+
+/-- hypotheses of `C15_rejects_ambiguous`: `def h(xa, xb)`, `--x=1` -/
+example : OptSyntax (envW false) .ddEq (w "x") ∧ w "x" ∉ (⟨[w "xa", w "xb"], 0, false, [], [], false⟩ : ArgSpec).names ∧
+    (⟨[w "xa", w "xb"], 0, false, [], [], false⟩ : ArgSpec).names.filter (fun a => (w "x").isPrefixOf a) = [w "xa", w "xb"] :=
+  ⟨⟨⟨'x', [], rfl, by decide, by decide⟩, by decide, by decide⟩, by decide, by decide⟩
+
+/-- hypotheses of `C15_rejects_call`: `def h(x, xy)` with only `--xy=2` does not bind -/
+example : pyBind specW Expr.dflt (callPos specW .string [.opt .ddEq (w "xy") (w "2")] none [])
+    (callKw specW .string [.opt .ddEq (w "xy") (w "2")] []) = .error .missing := by decide
+
+/-- global options: `py -q --safe f 1+2` -/
+example : globalOpts [w "-q", w "--safe", w "f", w "1+2"] none = .ok ⟨some .string, [w "f", w "1+2"]⟩ := by decide
+
+end Examples
 
 end Pfb.C15
